@@ -90,3 +90,8 @@ Lemma xmax_lt_pi2 : 3927/10000 < PI/2.
 Proof. interval. Qed.
 Lemma Kc_pos : 0 < Kc.
 Proof. unfold Kc. interval. Qed.
+Lemma PI_bounds : 314/100 < PI < 315/100.
+Proof. split; interval. Qed.
+(** used by a non-vacuity example: radius 1000, tolerance 1/1000 gives 11 pieces *)
+Lemma sixth_root_example : 10 < Rpower (11163/10000 * (1000 / (1/1000))) (1/6) < 11.
+Proof. unfold Rpower. split; interval. Qed.
